@@ -1025,7 +1025,8 @@ func (e *Engine) loopHeader(st *State, fr *Frame, b, prev *ssa.BasicBlock, ord i
 		}
 	}
 	for _, inv := range ls.Invariants {
-		st.assume(env.boolTerm(inv.Expr))
+		// equalities whose left side is an abstraction of havoced cells act as definitions
+		e.assumeEnsures(st, env, inv.Expr, nil, nil)
 	}
 	if fr.contract != nil {
 		for _, u := range fr.contract.Using {
